@@ -176,6 +176,12 @@ A table obligation, like obligation 4: values are outside the lock machine. -/
 theorem C05_program_check_then_act_reviewed : ctaReviewed ctaRows = true := by
   decide +kernel
 
+/-- Obligation 6 (regenerated table): no object is written through a local
+variable after it was stored into a guarded field and the guarding hold ended,
+except in reviewed places (none in the current tree).  A table obligation. -/
+theorem C05_program_no_write_after_publish : pubReviewed pubRows = true := by
+  decide +kernel
+
 /-- Since R4, R5 and R11 are repaired in the tree, NO lock-order edge and NO
 acquisition of a gated lock is excluded any more: the exclusion lists are
 empty (this theorem stops checking, and has to be restated, if a finding is
